@@ -53,6 +53,8 @@ def check(tier, seed, replay=None):
                     vals.append(("str", [G.rand_cp(rnd) for _ in range(rnd.choice([1, 5, 12]))]))
                 if rnd.random() < 0.2:
                     vals.append(("arr", [("num", rnd.choice(G.EXTREME_DOUBLES + [str(x) for x in G.BOUNDARY_INTS])) for _ in range(3)]))
+                if rnd.random() < 0.3:
+                    vals = G.with_twins(rnd, vals)
                 data, _ = G.spell_stream(rnd, vals)
                 extra, known = [], True
             else:
